@@ -1645,7 +1645,11 @@ impl PeerConnection {
                         && parts[0] == "IN"
                         && parts[1] == "IP4"
                         && let Ok(ip) = parts[2].parse::<std::net::IpAddr>()
+                        && remote_addr.is_none()
+                        && section.port != 0
                     {
+                        // The primary transport serves the first m-section; without BUNDLE
+                        // the other sections have their own address and transport.
                         remote_addr = Some(std::net::SocketAddr::new(ip, section.port));
                     }
                 }
@@ -2064,9 +2068,12 @@ impl PeerConnection {
             *remote = Some(desc.clone());
         }
 
-        if self.config().transport_mode == TransportMode::Rtp {
+        if self.config().transport_mode != TransportMode::WebRtc {
             self.configure_rtp_media_transports_from_remote(&desc, ufrag, pwd, candidates)
                 .await?;
+        }
+        if self.config().transport_mode == TransportMode::Srtp {
+            self.setup_sdes_media_transports();
         }
 
         // Refresh mux/RTCP routing after any remote description change.
@@ -2433,87 +2440,114 @@ impl PeerConnection {
         Ok(Box::pin(async {}) as Pin<Box<dyn Future<Output = ()> + Send>>)
     }
 
-    fn setup_sdes(&self, rtp_transport: &Arc<RtpTransport>) -> RtcResult<()> {
-        let (tx_keying, rx_keying, profile) = {
-            let remote_desc = self.inner.remote_description.lock();
-            let local_desc = self.inner.local_description.lock();
+    /// Build the SDES-SRTP session of one media stream from the `a=crypto` lines of its
+    /// local (transmit key) and remote (receive key) m-section.
+    fn sdes_session_from_sections(
+        local: Option<&MediaSection>,
+        remote: Option<&MediaSection>,
+    ) -> RtcResult<crate::srtp::SrtpSession> {
+        let remote_crypto = remote.and_then(|m| m.get_crypto_attributes().into_iter().next());
+        let local_crypto = local.and_then(|m| m.get_crypto_attributes().into_iter().next());
 
-            let remote_crypto = remote_desc
-                .as_ref()
-                .and_then(|d| d.media_sections.first())
-                .and_then(|m| m.get_crypto_attributes().into_iter().next());
-
-            let local_crypto = local_desc
-                .as_ref()
-                .and_then(|d| d.media_sections.first())
-                .and_then(|m| m.get_crypto_attributes().into_iter().next());
-
-            if let (Some(remote), Some(local)) = (remote_crypto, local_crypto) {
-                let profile = map_crypto_suite(&remote.crypto_suite)?;
-                if profile != map_crypto_suite(&local.crypto_suite)? {
-                    return Err(RtcError::Internal("Crypto suite mismatch".into()));
-                }
-
-                let rx_key_salt = parse_sdes_key_params(&remote.key_params)?;
-                let tx_key_salt = parse_sdes_key_params(&local.key_params)?;
-
-                let (key_len, salt_len) = match profile {
-                    crate::srtp::SrtpProfile::Aes128Sha1_80
-                    | crate::srtp::SrtpProfile::Aes128Sha1_32 => (16, 14),
-                    crate::srtp::SrtpProfile::AeadAes128Gcm => (16, 12),
-                    _ => (16, 14),
-                };
-
-                if rx_key_salt.len() < key_len + salt_len || tx_key_salt.len() < key_len + salt_len
-                {
-                    return Err(RtcError::Internal("Invalid key length".into()));
-                }
-
-                let rx_keying = crate::srtp::SrtpKeyingMaterial::new(
-                    rx_key_salt[..key_len].to_vec(),
-                    rx_key_salt[key_len..key_len + salt_len].to_vec(),
-                );
-                let tx_keying = crate::srtp::SrtpKeyingMaterial::new(
-                    tx_key_salt[..key_len].to_vec(),
-                    tx_key_salt[key_len..key_len + salt_len].to_vec(),
-                );
-
-                (tx_keying, rx_keying, profile)
-            } else {
-                return Err(RtcError::Internal(
-                    "Missing crypto attributes for SDES".into(),
-                ));
-            }
+        let (Some(remote), Some(local)) = (remote_crypto, local_crypto) else {
+            return Err(RtcError::Internal(
+                "Missing crypto attributes for SDES".into(),
+            ));
         };
 
-        let session = crate::srtp::SrtpSession::new(profile, tx_keying, rx_keying)
-            .map_err(|e| RtcError::Internal(format!("SRTP error: {}", e)))?;
+        let profile = map_crypto_suite(&remote.crypto_suite)?;
+        if profile != map_crypto_suite(&local.crypto_suite)? {
+            return Err(RtcError::Internal("Crypto suite mismatch".into()));
+        }
+
+        let rx_key_salt = parse_sdes_key_params(&remote.key_params)?;
+        let tx_key_salt = parse_sdes_key_params(&local.key_params)?;
+
+        let (key_len, salt_len) = match profile {
+            crate::srtp::SrtpProfile::Aes128Sha1_80 | crate::srtp::SrtpProfile::Aes128Sha1_32 => {
+                (16, 14)
+            }
+            crate::srtp::SrtpProfile::AeadAes128Gcm => (16, 12),
+            _ => (16, 14),
+        };
+
+        if rx_key_salt.len() < key_len + salt_len || tx_key_salt.len() < key_len + salt_len {
+            return Err(RtcError::Internal("Invalid key length".into()));
+        }
+
+        let rx_keying = crate::srtp::SrtpKeyingMaterial::new(
+            rx_key_salt[..key_len].to_vec(),
+            rx_key_salt[key_len..key_len + salt_len].to_vec(),
+        );
+        let tx_keying = crate::srtp::SrtpKeyingMaterial::new(
+            tx_key_salt[..key_len].to_vec(),
+            tx_key_salt[key_len..key_len + salt_len].to_vec(),
+        );
+
+        crate::srtp::SrtpSession::new(profile, tx_keying, rx_keying)
+            .map_err(|e| RtcError::Internal(format!("SRTP error: {}", e)))
+    }
+
+    fn setup_sdes(&self, rtp_transport: &Arc<RtpTransport>) -> RtcResult<()> {
+        let session = {
+            let remote_desc = self.inner.remote_description.lock();
+            let local_desc = self.inner.local_description.lock();
+            Self::sdes_session_from_sections(
+                local_desc.as_ref().and_then(|d| d.media_sections.first()),
+                remote_desc.as_ref().and_then(|d| d.media_sections.first()),
+            )?
+        };
 
         rtp_transport.start_srtp(session);
 
+        // Without BUNDLE every further m-section has its own transport and its own keys.
+        self.setup_sdes_media_transports();
+
         let transceivers = self.inner.transceivers.lock();
         for t in transceivers.iter() {
-            let sender_arc = t.sender.lock().clone();
-            let receiver_arc = t.receiver.lock().clone();
-
-            if let Some(sender) = &sender_arc {
-                sender.set_transport(rtp_transport.clone());
-            }
-
-            if let Some(receiver) = &receiver_arc {
-                receiver.set_transport(
-                    rtp_transport.clone(),
-                    Some(self.inner.event_tx.clone()),
-                    Some(Arc::downgrade(t)),
-                );
-                if let Some(sender) = &sender_arc {
-                    receiver.set_feedback_ssrc(sender.ssrc());
-                }
-            }
+            self.attach_selected_rtp_transport(t, rtp_transport.clone());
         }
 
         *self.inner.rtp_transport.lock() = Some(rtp_transport.clone());
         Ok(())
+    }
+
+    /// Key every per-section media transport (SDES-SRTP without BUNDLE) that has no SRTP
+    /// session yet with the `a=crypto` lines of its own m-section. Needs both descriptions:
+    /// called when the primary transport starts and whenever a remote description has
+    /// created media transports after that.
+    fn setup_sdes_media_transports(&self) {
+        let remote_desc = self.inner.remote_description.lock().clone();
+        let local_desc = self.inner.local_description.lock().clone();
+        let (Some(remote_desc), Some(local_desc)) = (remote_desc, local_desc) else {
+            return;
+        };
+        let local_matched = self.matched_rtp_media_sections(&local_desc);
+        for (transceiver, remote_idx) in self.matched_rtp_media_sections(&remote_desc) {
+            let Some(transport) = self
+                .inner
+                .rtp_media_transports
+                .lock()
+                .get(&transceiver.id())
+                .cloned()
+            else {
+                continue;
+            };
+            if transport.srtp_started() {
+                continue;
+            }
+            let local_section = local_matched
+                .iter()
+                .find(|(t, _)| t.id() == transceiver.id())
+                .map(|(_, idx)| &local_desc.media_sections[*idx]);
+            match Self::sdes_session_from_sections(
+                local_section,
+                Some(&remote_desc.media_sections[remote_idx]),
+            ) {
+                Ok(session) => transport.start_srtp(session),
+                Err(e) => warn!("SDES setup failed for media section {}: {}", remote_idx, e),
+            }
+        }
     }
 
     fn setup_srtp(
@@ -2808,7 +2842,8 @@ impl PeerConnection {
             .inner
             .direct_rtp_ice_transport(transceiver.id(), primary);
 
-        if self.config().enable_ice_lite {
+        // ICE-lite is only offered in RTP mode (see build_description).
+        if self.config().enable_ice_lite && self.config().transport_mode == TransportMode::Rtp {
             if let (Some(u), Some(p)) = (ufrag, pwd) {
                 let params = crate::transports::ice::IceParameters {
                     username_fragment: u.clone(),
@@ -2825,7 +2860,9 @@ impl PeerConnection {
         }
 
         let needs_rtcp_socket = !section.attributes.iter().any(|attr| attr.key == "rtcp-mux");
-        if ice_transport.local_candidates().is_empty() {
+        if primary && self.config().transport_mode == TransportMode::Srtp {
+            // The primary SDES-SRTP transport has been connected by start_direct().
+        } else if ice_transport.local_candidates().is_empty() {
             ice_transport
                 .setup_direct_rtp_with_rtcp(remote_addr, needs_rtcp_socket)
                 .await
@@ -2907,7 +2944,8 @@ impl PeerConnection {
             self.config().label.clone(),
             self.config().probation_max_packets,
         );
-        if self.config().enable_latching {
+        let srtp_required = self.config().transport_mode != TransportMode::Rtp;
+        if !srtp_required && self.config().enable_latching {
             ice_conn.enable_latch_on_rtp();
         }
         ice_conn.set_remote_rtcp_addr(
@@ -2921,7 +2959,7 @@ impl PeerConnection {
 
         let rtp_transport = Arc::new(RtpTransport::new_with_ssrc_change(
             ice_conn.clone(),
-            false,
+            srtp_required,
             self.config().enable_latching,
         ));
         ice_conn.set_rtp_receiver(rtp_transport.clone());
